@@ -8,7 +8,8 @@ use lexical_util::format::{self as fmt, NumberFormatBuilder};
 crate::harnesses! {
     /// format_error_impl(f) == Success  <=>  documented validity predicate, for every f: u128.
     /// @prop C18
-    /// @feat default pow2 radix format pow2_format radix_format
+    /// @feat radix_format default pow2 radix format pow2_format
+    /// @quickfeats 2
     /// @fn lexical-util::feature_format::format_error_impl / not_feature_format::format_error_impl
     /// @assume reached through the cfg(lexical_verif) hook lexical_util::format::verif_format_error
     fn format_valid_iff_spec() {
@@ -21,7 +22,8 @@ crate::harnesses! {
 
     /// build_strict returns (does not panic) for every valid format, and returns the normalised packed value.
     /// @prop C18
-    /// @feat default radix_format
+    /// @feat radix_format default
+    /// @quickfeats 2
     /// @fn lexical-util::format_builder::NumberFormatBuilder::build_strict
     /// @fn lexical-util::format_builder::NumberFormatBuilder::rebuild
     fn format_build_strict_valid() {
@@ -33,7 +35,8 @@ crate::harnesses! {
 
     /// build_strict never returns for an invalid format (its panic is the expected outcome).
     /// @prop C18
-    /// @feat default radix_format
+    /// @feat radix_format default
+    /// @quickfeats 2
     /// @fn lexical-util::format_builder::NumberFormatBuilder::build_strict
     /// @tolerate format_builder.rs
     fn format_build_strict_invalid() {
@@ -45,7 +48,8 @@ crate::harnesses! {
 
     /// rebuild/build_unchecked round trip: fields preserved, idempotent; radix/punctuation getters agree.
     /// @prop C18
-    /// @feat default radix_format
+    /// @feat radix_format default
+    /// @quickfeats 2
     /// @fn lexical-util::format_builder::NumberFormatBuilder::rebuild
     /// @fn lexical-util::format_builder::NumberFormatBuilder::build_unchecked
     fn format_rebuild_roundtrip() {
